@@ -23,6 +23,7 @@ func init() {
 		Parts: []Part{
 			{Name: "rate", Shards: 8, Fn: c14Rate},
 			{Name: "evict", Shards: 4, Fn: c14Evict},
+			{Name: "lru", Shards: 8, Fn: c14LRU},
 			{Name: "conn", Shards: 8, Fn: c14Conn},
 			{Name: "rateconc", Race: true, Shards: 4, Fn: c14RateConc},
 		},
@@ -418,4 +419,85 @@ func c14RateConc(c *Ctx) {
 		}
 	})
 	c.Require("rateconc_nontrivial", 2)
+}
+
+// c14LRU: capacity pressure with arbitrary use orders. Every request (admitted or rejected) counts as a use and
+// every use happens in its own second, so "the tracked source nearest to expiry" is always unique: it is the least
+// recently used one. The reference keeps (tracked?, drained?) per source; observations are the request outcomes.
+func c14LRU(c *Ctx) {
+	c.Cases("lru", c.N(600, 20000), func(i int, r *rand.Rand) {
+		capacity := 1 + r.IntN(8)
+		period := pick(r, []time.Duration{30 * time.Minute, time.Hour, 2 * time.Hour}) // nothing refills during a case
+		burst := int64(1 + r.IntN(3))
+		rs := []rateSpec{{period, 1, burst}}
+		freeze(baseTime.Add(time.Duration(r.Int64N(1e9))))
+		defer unfreeze()
+		n := new(int)
+		tl, err := ratelimit.New(http.HandlerFunc(func(http.ResponseWriter, *http.Request) { *n++ }), hdrExtractor, mkRateSet(rs), ratelimit.Capacity(capacity))
+		if err != nil {
+			panic(err)
+		}
+		universe := capacity + 1 + r.IntN(4)
+		lastUse := map[int]int{} // tracked sources -> step of last use
+		var script []string
+		evictions, retouches := 0, 0
+		steps := 20 + r.IntN(80)
+		for st := 1; st <= steps; st++ {
+			advance(time.Second + time.Duration(r.IntN(900))*time.Millisecond)
+			src := r.IntN(universe)
+			if _, tracked := lastUse[src]; tracked {
+				// remembered and drained: one token must be refused
+				d := c14Serve(tl, n, src, 1)
+				script = append(script, sfmt("s%d:probe", src))
+				c.Count("lru_decisions", 1)
+				if d.Admitted {
+					c.Violation("evict/wrong-victim", sfmt("capacity %d: source s%d is tracked (last used at step %d, tracked sources and their last use: %v) and drained, yet step %d admitted it: it had been forgotten although it was not the least recently used source", capacity, src, lastUse[src], lastUse, st),
+						map[string]any{"capacity": capacity, "rate": rs, "script": script})
+					return
+				}
+				lastUse[src] = st
+				retouches++
+				continue
+			}
+			// not tracked: it starts afresh; if the table is full exactly the least recently used source is forgotten
+			if len(lastUse) >= capacity {
+				victim, oldest := -1, 1<<30
+				for s, u := range lastUse {
+					if u < oldest {
+						victim, oldest = s, u
+					}
+				}
+				delete(lastUse, victim)
+				evictions++
+				script = append(script, sfmt("s%d:new(evicts s%d)", src, victim))
+			} else {
+				script = append(script, sfmt("s%d:new", src))
+			}
+			var k int64
+			for k <= burst+1 {
+				if !c14Serve(tl, n, src, 1).Admitted {
+					break
+				}
+				k++
+			}
+			c.Count("lru_decisions", 1)
+			if k != burst {
+				key := "evict/victim-not-fresh"
+				c.Violation(key, sfmt("capacity %d: source s%d is not tracked by the reference (forgotten or new) at step %d and must start with its full burst %d, but drained %d (tracked: %v)", capacity, src, st, burst, k, lastUse),
+					map[string]any{"capacity": capacity, "rate": rs, "script": script})
+				return
+			}
+			lastUse[src] = st
+		}
+		c.Eval()
+		if evictions >= 2 && retouches >= 2 {
+			c.Nontrivial(sfmt("lru/%d/%v/%x", capacity, period, hash64(sfmt("%v", script))))
+			c.Count("lru_nontrivial", 1)
+		}
+		c.Count("lru_evictions", int64(evictions))
+		if i < 2 {
+			c.Sample(map[string]any{"capacity": capacity, "rate": rs, "script_prefix": script[:min(len(script), 14)]})
+		}
+	})
+	c.Require("lru_nontrivial", 2)
 }
